@@ -11,7 +11,7 @@ import (
 
 // C31 — replication requests are accepted only from container nodes for container nodes.
 func init() {
-	register(&Check{ID: "C31", Level: "proof", Pkgs: []string{"./pkg/services/object", "./cmd/neofs-node"}, Run: runC31})
+	register(&Check{ID: "C31", Level: "proof", Pkgs: []string{"./pkg/services/object", "./pkg/services/object/put", "./cmd/neofs-node"}, Run: runC31})
 }
 
 // flagSetBy returns a Guard.Value predicate: v is a load of the local flag variable that
@@ -176,6 +176,10 @@ func runC31(p *core.Prog, r *core.Report) {
 	r5 := r.Rule("C31.R5", "the receiver-side membership question is answered from the current epoch only: the node's adapter for ForEachContainerNodePublicKey delegates to the placement service's current-epoch iteration with its own arguments, that iteration asks for no previous epoch, and forEachContainerNode applies the policy to a second epoch only when asked to", 3)
 	receiverMembershipIsCurrentEpoch(p, r, r5)
 	r.Explain += " (R5) the server-in-container test of Replicate iterates the nodes of the CURRENT epoch: cmd/neofs-node's adapter method ForEachContainerNodePublicKey calls the placement service's method of the same name (not the two-epoch one) with its own container id and callback; that method passes 'no previous epoch' to forEachContainerNode, which applies the policy at a second epoch only on the path where the flag is set."
+	// ---------------- R6 'full validation' of a replica includes its payload (shared with C24.R2)
+	r6 := r.Rule("C31.R6", "the local store behind Replicate (ValidateAndStoreObjectLocally) is reached only after format, content, declared-size, size-limit and payload-checksum checks — for every object, also one that arrives with an empty payload field", 5)
+	replicaFullyValidated(p, r, r6)
+	r.Explain += " (R6, shared with C24.R2) what R2's adapter delegates to validates the payload against the signed header on every path to the store: a replica whose header declares a payload but arrives without it, or whose checksum is not the SHA-256 of what arrived, is refused."
 	// ---------------- R4 the node sets of an epoch come from that epoch's network map
 	r4 := r.Rule("C31.R4", "the per-epoch network map cache answers a request for epoch N only with a map whose Epoch() == N, or with what was just read from the chain without error: a stale slot (N-10, N-20, ...) is never served as epoch N", 1)
 	if gfn := p.Func("(*cmd/neofs-node.lruNetCache).get"); gfn == nil {
